@@ -1372,10 +1372,10 @@ func checkFind(c findCase) ev.Outcome {
 func init() {
 	ev.Define("find_closest", ev.Options{
 		Rule:  "index of 0..12 shapes of all seven shape types (star loops, nested-ring polygons, polylines, lax variants, points; 0..200 edges, up to 2500 in a quarter of the thorough cases; 1/4 of the cases exactly on/next to the 25/26 and 30/31 thresholds; clusters down to 1e-9 rad so that index cells reach the leaf level; placed on 1,2,3,4,6 faces or as one large region), 1..4 targets (point/edge incl. degenerate/cell of any level; on vertices, on edges, inside polygons, antipodal, far, a quarter circle from a vertex, at the pole of a cell side, on an axis with denormal other components), 1..4 option sets each (MaxResults 1,2,3,10,∞; limit ∞, 0, tiny, absolute, or the r-th true distance ±1 ulp; MaxError 0 or 1e-14..4; interiors; brute force). Oracle: own scan of every edge with the exported point/edge/cell primitives and the same limit, exact parity containment from a construction-known point for interiors; equality of the sorted list (MaxError 0), order-statistics bound (MaxError>0). Non-trivial = the optimized branch ran on an index whose covering has >=3 top-level cells, or MaxError>0 with MaxResults>1.",
-		Quick: 40000, Thorough: 1000000}, genFind(false, 200, 2500), checkFind)
+		Quick: 40000, Thorough: 600000}, genFind(false, 200, 2500), checkFind)
 	ev.Define("find_furthest", ev.Options{
 		Rule:  "as find_closest for NewFurthestEdgeQuery (distances are maxima, limit is a lower bound, interiors mean the polygon contains the antipode of the target's representative point; half of the probes are antipodes of indexed geometry).",
-		Quick: 28000, Thorough: 700000}, genFind(true, 200, 2500), checkFind)
+		Quick: 28000, Thorough: 400000}, genFind(true, 200, 2500), checkFind)
 	ev.Define("find_index_target", ev.Options{
 		Rule:  "closest and furthest with a second index as the target (1..5 shapes, 1..60 edges, either drawn independently or placed about probes of the indexed geometry). Oracle: per indexed edge the best edge pair over all target edges (zero/π when the edge midpoint/its antipode lies in a target polygon), interiors from the first vertex of every target chain. MaxError>0: true ≤ reported ≤ true+MaxError per entry and per rank. Non-trivial as find_closest.",
 		Quick: 8000, Thorough: 100000}, genFindIndexTarget, checkFind)
